@@ -285,42 +285,33 @@ theorem bee_end_to_end (h : CryptoLaws c) (hdrs : List BeeHdr) (hwf : ∀ x ∈ 
     obtain ⟨ct, h1, h2, _⟩ := bee_inverts h (hdrs.map (fun x => some x.engine)) hwf' (by rw [he]; exact hd) base hb img
     exact ⟨ct, h1, by rw [he] at h2; exact h2⟩
 
-/-- The `KeyBlob` constructor accepts every well-formed blob, and what it accepts is well-formed — PROVIDED the key has
-    16 and the counter 8 bytes (and the blob can be exported): -/
-theorem keyblob_ctor_wf (kb : KeyBlob) (hk : kb.key.length = 16) (hc : kb.ctr.length = 8) (he : kb.end_ = 0 → kb.flags = 0) :
-    kb.ctorOk = true ↔ kb.WF :=
-  ⟨fun h => FlashEnc.sb21_wf_of_ctorOk kb h hk hc he, FlashEnc.sb21_ctorOk_of_wf kb⟩
+/-- The `KeyBlob` constructor accepts exactly the well-formed blobs (key 16 bytes, counter 8 bytes, aligned start,
+    `start ≤ end < 2^32`, flags within the mask) — for blobs that can be exported (`end = 0` only without flags). -/
+theorem keyblob_ctor_wf (kb : KeyBlob) (he : kb.end_ = 0 → kb.flags = 0) : kb.ctorOk = true ↔ kb.WF :=
+  ⟨fun h => FlashEnc.sb21_wf_of_ctorOk kb h he, FlashEnc.sb21_ctorOk_of_wf kb⟩
 
-/- Full-strength statement `kb.ctorOk = true → kb.key.length = 16 ∧ kb.ctr.length = 8` ("invalid key is refused") is
-   FALSE on the current code (`and` instead of `or`, open finding C13-keyblob-ctor-accepts-wrong-size, proposed fix
-   C13-5): refuted by the `example` below.  What holds: -/
-theorem keyblob_ctor_lengths_partial (kb : KeyBlob) (h : kb.ctorOk = true) : kb.key.length = 16 ∨ kb.ctr.length = 8 :=
-  FlashEnc.sb21_ctor_lengths kb h
-
-example : ∃ kb : KeyBlob, kb.ctorOk = true ∧ kb.key.length = 32 :=
-  ⟨{ start := 0x1000, end_ := 0x1FFF, key := List.replicate 32 0, ctr := List.replicate 8 0, flags := 3 }, by decide, by decide⟩
-
-/- SB2.1 `encrypt (id) { load … > address; }`.  Full-strength statement — the engine programmed with the key blob reads
-   the data back at the load address for EVERY address whose (512-byte padded) data fit the window — is FALSE on the
-   current code (counter taken from the key blob start; open finding C13-sb21-encrypt-counter-from-blob-start,
-   proposed fix C13-6): refuted by the `example` below.  With the extra hypothesis `address = start`: -/
 /-- the padding unit of the SB2.1 `encrypt` command (512 in the source) only has to be a positive multiple of 16 -/
 theorem sb21_align_ok : sb21EncryptAlign % 16 = 0 ∧ 0 < sb21EncryptAlign := FlashEnc.sb21_align_ok
 
-theorem sb21_encrypt_inverts_partial (h : CryptoLaws c) (start end_ : Nat) (key ctr : Bytes) (swap : Bool)
-    (address : Nat) (data : Bytes) (hwf : (Sb21.blob start end_ key ctr).WF) (hfl : end_ % 4 = 3)
-    (haddr : address = start)
-    (hfit : Sb21.fits (Sb21.blob start end_ key ctr) address (zeroPad sb21EncryptAlign data).length) :
+/-- SB2.1 `encrypt (id) { load data > address; }` + `keywrap (id)`: the engine programmed with the context of the WRAPPED
+    key blob (flags = low bits of the BD `end` value) reads the data back at the LOAD address — for every 16-byte aligned
+    load address whose (512-byte padded) data fit the blob's window, whether `end` enables decryption (`…011b`) or not. -/
+theorem sb21_encrypt_inverts (h : CryptoLaws c) (start end_ : Nat) (key ctr : Bytes) (swap : Bool)
+    (address : Nat) (data : Bytes) (hwf : (Sb21.blob start end_ key ctr (end_ &&& otfadKeyFlagMask)).WF)
+    (ha16 : address % 16 = 0) (hne : 0 < data.length)
+    (hfit : Sb21.fits (Sb21.blob start end_ key ctr (end_ &&& otfadKeyFlagMask)) address
+      (zeroPad sb21EncryptAlign data).length) :
     ∃ ct, Sb21.encrypt c start end_ key ctr swap address data = .ok ct ∧
-      (otfadHwReadAll c [(Sb21.blob start end_ key ctr).ctx] swap address ct).take data.length = data :=
-  FlashEnc.sb21_encrypt_inverts_partial h start end_ key ctr swap address data hwf hfl haddr hfit
+      (otfadHwReadAll c [(Sb21.blob start end_ key ctr (end_ &&& otfadKeyFlagMask)).ctx] swap address ct).take data.length
+        = data :=
+  FlashEnc.sb21_encrypt_inverts h start end_ key ctr swap address data hwf ha16 hne hfit
 
-/-- SB2.1 `keywrap (id)`: the wrapped blob unwraps to the blob's key, counter, range — with the flags VLD|ADE
-    whatever the low bits of `end` say (open finding C13-sb21-keywrap-ignores-end-flags, proposed fix C13-7). -/
+/-- SB2.1 `keywrap (id)`: the wrapped blob unwraps to the blob's key, counter, range and the RO/ADE/VLD flags given in
+    the low bits of the BD `end` value, with a valid CRC. -/
 theorem sb21_keywrap_unwraps (h : CryptoLaws c) (start end_ : Nat) (key ctr kek rnd : Bytes)
-    (hwf : (Sb21.blob start end_ key ctr).WF) (hk : kek.length = 16) (hr : rnd.length = 4) :
+    (hwf : (Sb21.blob start end_ key ctr (end_ &&& otfadKeyFlagMask)).WF) (hk : kek.length = 16) (hr : rnd.length = 4) :
     ∃ e, Sb21.keywrap c start end_ key ctr kek rnd = .ok e ∧ e.length = 64 ∧
-      otfadUnwrapEntry c kek 0 e = some ((Sb21.blob start end_ key ctr).ctx, true) :=
+      otfadUnwrapEntry c kek 0 e = some ((Sb21.blob start end_ key ctr (end_ &&& otfadKeyFlagMask)).ctx, true) :=
   FlashEnc.sb21_keywrap_unwraps h start end_ key ctr kek rnd hwf hk hr
 
 /-! ## Non-vacuity and the defect the fix removes -/
@@ -373,19 +364,17 @@ private def exBee : BeeEngine := ⟨List.replicate 16 7, List.replicate 12 9 ++ 
 example : exBee.WF ∧ BeeDisjoint [exBee] := by
   refine ⟨⟨by decide, by decide, by decide, by decide⟩, by simp [BeeDisjoint, beeAllFacs, exBee]⟩
 
-/-- SB2.1 `encrypt` at a load address other than the key blob start (inside the window): NOT decryptable there … -/
+/-- non-vacuity of `sb21_encrypt_inverts` at a load address other than the key blob start, and for an `end` with ADE = 0 -/
+example : (Sb21.blob 0x1000 0x1FFF (List.replicate 16 0x11) [1, 2, 3, 4, 5, 6, 7, 8] (0x1FFF &&& otfadKeyFlagMask)).WF ∧
+    (Sb21.blob 0x2000 0x23FD (List.replicate 16 0x11) [1, 2, 3, 4, 5, 6, 7, 8] (0x23FD &&& otfadKeyFlagMask)).WF := by
+  decide
+
 example : (match Sb21.encrypt toy 0x1000 0x1FFF (List.replicate 16 0x11) [1, 2, 3, 4, 5, 6, 7, 8] false 0x1400 exImg with
-    | .ok ct => decide ((otfadHwReadAll toy [(Sb21.blob 0x1000 0x1FFF (List.replicate 16 0x11) [1, 2, 3, 4, 5, 6, 7, 8]).ctx] false
-        0x1400 ct).take 32 ≠ exImg)
+    | .ok ct => decide (ct.take 32 ≠ exImg ∧
+        (otfadHwReadAll toy [(Sb21.blob 0x1000 0x1FFF (List.replicate 16 0x11) [1, 2, 3, 4, 5, 6, 7, 8] 7).ctx] false 0x1400 ct).take 32
+          = exImg)
     | .error _ => false) = true := by
   decide +kernel
-
-/-- … and a key blob whose `end` says ADE = 0 (`…3fd`): `encrypt` leaves the data plain, but the wrapped blob's context
-    has ADE = 1, so the engine "decrypts" them. -/
-example : Sb21.encrypt toy 0x2000 0x23FD (List.replicate 16 0x11) [1, 2, 3, 4, 5, 6, 7, 8] false 0x2000 exImg = .ok exImg ∧
-    (Sb21.blob 0x2000 0x23FD (List.replicate 16 0x11) [1, 2, 3, 4, 5, 6, 7, 8]).ctx.ade = true ∧
-    otfadHwReadAll toy [(Sb21.blob 0x2000 0x23FD (List.replicate 16 0x11) [1, 2, 3, 4, 5, 6, 7, 8]).ctx] false 0x2000 exImg ≠ exImg := by
-  refine ⟨by decide +kernel, by decide +kernel, by decide +kernel⟩
 
 private def exHdr : BeeHdr := ⟨exBee, [1], 0, List.replicate 16 3, List.replicate 16 4⟩
 
